@@ -1353,7 +1353,8 @@ class Builder(object):
                     self.verifyName(frame, command, tokens, index)
 
                 elif connective == 'via':
-                    inode, index = self.parseIndirect(tokens, index, node=True)
+                    # the first clause may follow a relation whose optional name is left out
+                    inode, index = self.parseIndirect(tokens, index, node=True, ends=('first', ))
 
                 else:
                     msg = "Error building %s. Bad connective got %s." %\
@@ -4215,10 +4216,12 @@ class Builder(object):
         return (path, index)
 
 
-    def parseIndirect(self, tokens, index, node=False):
+    def parseIndirect(self, tokens, index, node=False, ends=()):
         """
         Parse Indirect data address
         If node then allow trailing dot in path
+        ends are non reserved words that are not taken as the optional name of
+        a relation such as the connectives of the other clauses of the command
 
 
         parms:
@@ -4281,12 +4284,12 @@ class Builder(object):
             #check for optional relation clause
             #if 'of relation' clause then allows relative but no
             #implied relation clauses
-            relation, index = self.parseRelation(tokens, index)
+            relation, index = self.parseRelation(tokens, index, ends=ends)
             # dotpath starts with '.' no need to add
 
         elif reoRelPath.match(path): #valid relative path segment
             #get optional relation clause, default is root
-            relation, index = self.parseRelation(tokens, index)
+            relation, index = self.parseRelation(tokens, index, ends=ends)
 
             chunks = path.split('.')
             if relation:  # check for relation conflict
@@ -4332,7 +4335,7 @@ class Builder(object):
 
         return (path, index)
 
-    def parseRelation(self, tokens, index, framername=''):
+    def parseRelation(self, tokens, index, framername='', ends=()):
         """
         Parse optional relation clause of relative data address
 
@@ -4340,6 +4343,7 @@ class Builder(object):
             tokens = list of tokens for command
             index = current index into tokens
             framername = default framer name if not provided such as 'main'
+            ends = non reserved words that are not an optional relation name
 
         returns:
             relation
@@ -4394,7 +4398,7 @@ class Builder(object):
                 name = '' #default name is empty
                 if index < len(tokens): #more tokens to check for optional name
                     name = tokens[index]
-                    if name not in Reserved: #name given
+                    if name not in Reserved and name not in ends: #name given
                         index += 1 #eat token
 
                         if not REO_IdentPub.match(name): #check if valid name
@@ -4413,7 +4417,7 @@ class Builder(object):
                 name = '' #default name is empty
                 if index < len(tokens): #more tokens to check for optional name
                     name = tokens[index]
-                    if name not in Reserved: #name given
+                    if name not in Reserved and name not in ends: #name given
                         index += 1 #eat token
 
                         if not REO_IdentPub.match(name): #check if valid name
@@ -4435,7 +4439,8 @@ class Builder(object):
 
                 framerRelation, index = self.parseRelation(tokens,
                                                            index,
-                                                           framername=framername)
+                                                           framername=framername,
+                                                           ends=ends)
 
                 # check if spurious, of frame or, of actor
                 if (framerRelation and
@@ -4456,7 +4461,7 @@ class Builder(object):
                 name = '' #default name is empty
                 if index < len(tokens): #more tokens to check for optional name
                     name = tokens[index]
-                    if name not in Reserved: #name given
+                    if name not in Reserved and name not in ends: #name given
                         index += 1 #eat token
 
                         if not REO_IdentPub.match(name): #check if valid name
@@ -4472,7 +4477,7 @@ class Builder(object):
                 relation += '.' + name  #append name
 
                 # parse optional of frame and hence framer relation
-                frameRelation, index = self.parseRelation(tokens, index)
+                frameRelation, index = self.parseRelation(tokens, index, ends=ends)
 
                 # check if spurious, of framer or, of actor
                 if (frameRelation and
